@@ -8,6 +8,8 @@
 package main
 
 import (
+	"encoding/json"
+	"math/big"
 	"context"
 	"encoding/binary"
 	"flag"
@@ -52,6 +54,44 @@ type Case struct {
 	Twin     int       `json:"twin"`    // id of the control case (-1: none)
 	Control  bool      `json:"control"` // this case is a control (its failure is not reported)
 	Note     string    `json:"note,omitempty"`
+	// locator on the real fixture chain (heights 556000..): tip index T, requested maximum
+	Fix    bool `json:"fix,omitempty"`
+	FixT   int  `json:"fix_t,omitempty"`
+	FixMax int  `json:"fix_max,omitempty"`
+}
+
+var fixture []*wire.BlockHeader
+
+// fixLocator brings a repository to height 556000+T on the real chain and asks for a locator.
+func fixLocator(c *Case) string {
+	ctx := coqfmt.QuietContext()
+	if fixture == nil {
+		b, err := os.ReadFile("/repo/headers/test_fixtures/headers_556000.txt")
+		if err == nil {
+			err = json.Unmarshal(b, &fixture)
+		}
+		if err != nil {
+			panic(err)
+		}
+	}
+	repo := headers.NewRepository(headers.DefaultConfig(), storage.NewMockStorage())
+	repo.DisableDifficulty()
+	work, _ := new(big.Int).SetString("d167cf38dd7a9c078a40d5", 16)
+	repo.MockLatest(ctx, fixture[0], 556000, work)
+	for i := 1; i <= c.FixT && i < len(fixture); i++ {
+		if err := repo.ProcessHeader(ctx, fixture[i]); err != nil {
+			panic(err)
+		}
+	}
+	l, err := repo.GetLocatorHashes(ctx, c.FixMax)
+	items := []string{}
+	if err != nil {
+		items = append(items, "0")
+	}
+	for _, h := range l {
+		items = append(items, "0x"+h.Value().Text(16))
+	}
+	return fmt.Sprintf("(mkLCase %s %d%%nat %s)", coqfmt.Z(int64(556000+c.FixT)), c.FixMax, coqfmt.List(items))
 }
 
 var verdictNames = []string{"VOk", "VUnknown", "VInvalid", "VTooDeep", "VWrongChain", "VBadWork", "VBadBits", "VOther"}
@@ -828,11 +868,29 @@ func main() {
 		}
 	}
 
+	if *replay == "" && *prof == "C19" {
+		root := coqfmt.NewRand(*seed ^ 0x5151)
+		for i := 0; i < *n/4+8; i++ {
+			r := root.Fork(uint64(i))
+			t := 1 + r.Intn(1985)
+			if r.Chance(2, 3) { // around and above the BCH/BSV split (index 767)
+				t = 760 + r.Intn(60)
+			}
+			cases = append(cases, Case{ID: len(cases), Twin: -1, Fix: true, FixT: t, FixMax: []int{1, 2, 3, 3, 4, 5, 10, 10, 50}[r.Intn(9)]})
+		}
+	}
+
 	coq := make([]string, len(cases))
 	stats := map[string]int{}
 	shapes := map[string]bool{}
 	nontrivial := map[string]bool{}
 	for i := range cases {
+		if cases[i].Fix {
+			coq[i] = fixLocator(&cases[i])
+			stats["fixture_chain_locator"]++
+			stats[fmt.Sprintf("fixture_locator_max_%d", cases[i].FixMax)]++
+			continue
+		}
 		s, st := coqCase(&cases[i])
 		coq[i] = s
 		for k, v := range st {
@@ -854,19 +912,46 @@ func main() {
 		stats[fmt.Sprintf("hdrs_%03d-%03d", len(cases[i].Hdrs)/20*20, len(cases[i].Hdrs)/20*20+19)]++
 	}
 
+	var normal, fix []int
+	for i := range cases {
+		if cases[i].Fix {
+			fix = append(fix, i)
+		} else {
+			normal = append(normal, i)
+		}
+	}
 	k := *shards
-	if k > len(cases) {
-		k = len(cases)
+	if k > len(normal) {
+		k = len(normal)
 	}
 	if k < 1 {
 		k = 1
 	}
 	index := make([][]int, k)
+	if len(fix) > 0 {
+		var part []string
+		var ids []int
+		for _, i := range fix {
+			part = append(part, coq[i])
+			ids = append(ids, cases[i].ID)
+		}
+		index = append(index, ids)
+		path := filepath.Join(*out, fmt.Sprintf("cases_%d.v", k))
+		if err := coqfmt.WriteCases(path, "From BR Require Import Base.Prelude Gen.Fixture Headers.SplitLocator.", "lcase",
+			"lmismatches (map (fun x => fst (fst x)) fixture_556000) 556000%Z", part); err != nil {
+			fmt.Fprintln(os.Stderr, err)
+			os.Exit(2)
+		}
+	}
 	for s := 0; s < k; s++ {
 		var part []string
-		for i := s; i < len(cases); i += k {
+		for j := s; j < len(normal); j += k {
+			i := normal[j]
 			part = append(part, coq[i])
 			index[s] = append(index[s], cases[i].ID)
+		}
+		if len(part) == 0 {
+			continue
 		}
 		path := filepath.Join(*out, fmt.Sprintf("cases_%d.v", s))
 		if err := coqfmt.WriteCases(path, "From BR Require Import Base.Prelude Headers.Tree.", "tcase", "mismatches", part); err != nil {
